@@ -162,6 +162,14 @@ class Env:
         self.att_raw = {a: np.round(rng.uniform(0.0, 0.08, len(self.freq[f])), 4) for a, f in self.att.items()}
         self.ad = {a: pf.FrequencyData(self.att_raw[a], self.freq[f].copy()) for a, f in self.att.items()}
         self.src = {i: pf.Coordinates(*S.draw_inside(rng, self.dims)) for i in (1, 2)}
+        # in about a third of the environments source 2 stands OUTSIDE the room (beyond one wall): it sees
+        # fewer patches than source 1, so whatever an earlier source left on now-hidden patches would show
+        self.src2_outside = bool(rng.random() < 0.35)
+        if self.src2_outside:
+            pos = np.array(S.draw_inside(rng, self.dims), dtype=float)
+            ax = int(rng.integers(0, 3))
+            pos[ax] = (self.dims[ax] + float(rng.uniform(0.3, 1.0))) if rng.random() < 0.5 else -float(rng.uniform(0.3, 1.0))
+            self.src[2] = pf.Coordinates(*pos)
         self.recv = {i: pf.Coordinates(*S.draw_inside(rng, self.dims)) for i in (1, 2)}
         self.timing = {}
         used = set()
